@@ -1,0 +1,13 @@
+//go:build verif
+
+package cff
+
+// Contracts for contract-based deductive verification (comment-only; see /verif/DESIGN.md).
+// Property C09: parsing never panics. Functions here are the ones the zero-annotation sweep cannot decide alone:
+// they need a loop invariant (tag C09c: verified in contract mode, parameters otherwise arbitrary).
+//
+//@ func parseIndexContent C09c
+//@   mode int
+//@   modifies unspecified
+//@   loop 1 invariant [prev-in-data] 0 <= prev && prev <= len(data)
+//@   loop 1 invariant [shape] len(out) == int(header.count) && 1 <= oSize && oSize <= 4 && offsetArraySize == (int(header.count)+1)*oSize && offsetArraySize <= len(src) && sameslice(data, src[offsetArraySize:])
